@@ -342,8 +342,8 @@ def zip64Rec (len : UInt16) (rest : Bytes) (st : ExtraSt) : Out Nat × ExtraSt :
         -- `len_left = len as i64 - 8*c3`; `if len_left > 0 { seek(Current(len_left)) }`
         (.ok (8 * c3 + (len.toNat - 8 * c3)), st)
 
-/-- Kind 0x9901. NB: `len_left` is *not* decremented in this arm, so after the seven bytes have been
-read the cursor is moved another seven bytes forward: the result is 14. -/
+/-- Kind 0x9901: the seven bytes of the record are read and `len_left` is decremented by 7 (K-C repaired;
+before, the cursor was moved another seven bytes forward and the result was 14). -/
 def aesRec (len : UInt16) (rest : Bytes) (st : ExtraSt) : Out Nat × ExtraSt :=
   if len ≠ 7 then (.err .unsupportedArchive, st) else
   match rest with
@@ -354,9 +354,9 @@ def aesRec (len : UInt16) (rest : Bytes) (st : ExtraSt) : Out Nat × ExtraSt :=
     if vendorId ≠ 0x4541 then (.err .invalidArchive, st) else
     if vendorVersion ≠ 1 ∧ vendorVersion ≠ 2 then (.err .invalidArchive, st) else
     let ver := if vendorVersion = 1 then VendorVersion.ae1 else VendorVersion.ae2
-    if m = 1 then (.ok 14, { st with aesMode := some (.aes128, ver), method := Method.fromU16 cm })
-    else if m = 2 then (.ok 14, { st with aesMode := some (.aes192, ver), method := Method.fromU16 cm })
-    else if m = 3 then (.ok 14, { st with aesMode := some (.aes256, ver), method := Method.fromU16 cm })
+    if m = 1 then (.ok 7, { st with aesMode := some (.aes128, ver), method := Method.fromU16 cm })
+    else if m = 2 then (.ok 7, { st with aesMode := some (.aes192, ver), method := Method.fromU16 cm })
+    else if m = 3 then (.ok 7, { st with aesMode := some (.aes256, ver), method := Method.fromU16 cm })
     else (.err .invalidArchive, st)
   | _ => (.err (.io .unexpectedEof), st)
 
